@@ -357,6 +357,8 @@ class GCXS(SparseArray, NDArrayOperatorsMixin):
     __getitem__ = getitem
 
     def _reduce_calc(self, method, axis, keepdims=False, **kwargs):
+        if len(set(axis)) != len(axis):
+            raise ValueError("duplicate value in 'axis'")
         if axis[0] is None or np.array_equal(np.sort(axis), np.arange(self.ndim, dtype=np.intp)):
             x = self.flatten().tocoo()
             out = x.reduce(method, axis=None, keepdims=keepdims, **kwargs)
